@@ -45,6 +45,36 @@ Theorem C17_children : forall px py, px < 2 ^ 31 -> py < 2 ^ 31 ->
 Proof. exact children. Qed.
 Print Assumptions C17_children.
 
+(** ** tie G2: pointindex.getQuadrantZs REGENERATED from source on this run (gen/ChildrenGen.v: the unrolled loop,
+    uint arithmetic modulo 2^64, Go's uint(oneIfRight(i)) / uint(oneIfTop(i)) with the regenerated oneIfRight/Top,
+    morton.FromZ and morton.MustToZ as the same [fromZ] / [mustToZ] as above, a panicking MustToZ ending the
+    function) is the model's [getQuadrantZs], for EVERY key: [None] = the function panics, which it does iff one
+    of the model's four children is [None]; otherwise the four keys in order. *)
+From Texel Require Import Bits.ProofsGenChildren.
+From Texel.Gen Require Import ChildrenGen.
+Theorem C17_source_tie_children :
+  (forall z, gen_getQuadrantZs z = all_some (getQuadrantZs z)) /\
+  (forall z r, gen_getQuadrantZs z = Some r <-> getQuadrantZs z = map Some r) /\
+  (forall z, gen_getQuadrantZs z = None <-> In None (getQuadrantZs z)).
+Proof.
+  split; [exact gen_getQuadrantZs_spec |].
+  split; [intros z r; rewrite gen_getQuadrantZs_spec; apply all_some_Some
+         | intro z; rewrite gen_getQuadrantZs_spec; apply all_some_None].
+Qed.
+Print Assumptions C17_source_tie_children.
+
+(** so C17_children is a statement about the source text: for a parent pixel below 2^31 the regenerated function
+    does not panic and returns the keys 4z .. 4z+3, bottom-left, bottom-right, top-left, top-right *)
+Theorem C17_source_children : forall px py, px < 2 ^ 31 -> py < 2 ^ 31 ->
+  let z := fst (toZ px py) in
+  gen_getQuadrantZs z = Some [4 * z; 4 * z + 1; 4 * z + 2; 4 * z + 3].
+Proof. exact gen_getQuadrantZs_children. Qed.
+Print Assumptions C17_source_children.
+
+Example C17_source_tie_children_example :
+  gen_getQuadrantZs 6 = Some [24; 25; 26; 27] /\ gen_getQuadrantZs (fst (toZ (2 ^ 31) 5)) = None.
+Proof. vm_compute. split; reflexivity. Qed.
+
 (** the generated programs ARE the bit interleaving / de-interleaving *)
 Theorem C17_toZ_is_interleave : forall x y, x < 2 ^ 32 -> y < 2 ^ 32 -> toZ x y = (interleave x y, true).
 Proof. exact toZ_spec. Qed.
